@@ -412,6 +412,8 @@ pub fn prop07() -> HistProp {
     p.real_feed = None;
     let mut wts = liq_weights();
     wts.edge = 5;
+    // the pauser halts / resumes trading in between: liquidations are not trading
+    wts.pause = 2;
     HistProp {
         id: "C07",
         level: "exploration",
